@@ -1,4 +1,5 @@
 import Astria.Ledger.Authority
+import Astria.Ledger.Withdrawals
 /-
   C04 — Bridge solvency: deposits are backed, withdrawals are paid at most once.
 -/
@@ -65,5 +66,33 @@ theorem C04_replayed_withdrawal_rejected (s : State) (signer : String) (act : Ac
   cases hm : mutableOk s signer act with
   | false => rfl
   | true => have := carrier_requires_fresh s signer act k hc hm; simp [this] at hk
+
+/-- **Withdrawals are paid at most once — every history.**  From any state, along every sequence
+    of transactions (taking effect or failing; any signers, nonces and bundles), ICS20 packets and
+    block ends, the number of times a given (bridge account, rollup withdrawal event id) is
+    honoured — counted over all three carrier kinds and all transactions that take effect — is at
+    most one. -/
+theorem C04_withdrawal_once_history (k : String × String) (ops : List Op) (s : State) :
+    totalHonoured k s ops ≤ 1 :=
+  withdrawal_once_history k ops s
+
+/-- …and zero once the id is on record. -/
+theorem C04_recorded_withdrawal_never_honoured (k : String × String) (ops : List Op) (s : State)
+    (hk : (lookup s.wd k).isSome) : totalHonoured k s ops = 0 :=
+  totalHonoured_zero_of_recorded k ops s hk
+
+/-- Non-vacuity: the withdrawer unlocks with event id "e0"; a second unlock and a bridge transfer
+    carrying the same id fail; the id was honoured exactly once. -/
+example :
+    let s : State := { postAspen := true, postBlackburn := true, sudo := "s", ibcSudo := "i",
+                       bal := [(("b0", "nria"), 100), (("a1", "nria"), 100)],
+                       bridges := [("b0", ⟨1, "nria", "a0", "a1", false⟩), ("b1", ⟨2, "nria", "a0", "a1", false⟩)],
+                       fees := [(.unlock, ⟨1, 0⟩), (.bridgeTransfer, ⟨1, 0⟩)], feeAssets := ["nria"] }
+    let ops := [Op.tx ⟨"a1", 0, [.unlock "a2" "b0" 5 "nria" "e0" 1]⟩,
+                Op.tx ⟨"a1", 1, [.unlock "a2" "b0" 5 "nria" "e0" 1]⟩,
+                Op.tx ⟨"a1", 1, [.bridgeTransfer "b1" "b0" 5 "nria" "e0" 1 3]⟩,
+                Op.endBlock]
+    totalHonoured ("b0", "e0") s ops = 1 ∧ getN (run s ops).bal ("a2", "nria") = 5 := by
+  decide
 
 end Astria
